@@ -75,7 +75,11 @@ type Pipe struct {
 
 // NewPipe starts z3 -in. logic "" means no set-logic (ALL).
 func NewPipe(logic string) (*Pipe, error) {
-	cmd := exec.Command("z3", "-in")
+	z3bin := "z3-new"
+	if v := os.Getenv("VERIF_Z3"); v != "" {
+		z3bin = v
+	}
+	cmd := exec.Command(z3bin, "-in")
 	in, err := cmd.StdinPipe()
 	if err != nil {
 		return nil, err
@@ -158,7 +162,10 @@ func (p *Pipe) Check(timeout time.Duration) Result {
 	p.nq++
 	p.send(fmt.Sprintf("(set-option :timeout %d)\n(check-sat)\n", timeout.Milliseconds()))
 	l, err := p.readLine()
-	Global.add("z3-pipe", time.Since(start))
+	Global.add("z3new-pipe", time.Since(start))
+	if os.Getenv("VERIF_SLOWQ") != "" {
+		fmt.Fprintf(os.Stderr, "Q %d ms %s\n", time.Since(start).Milliseconds(), l)
+	}
 	if err != nil {
 		return Error
 	}
